@@ -9,6 +9,13 @@ def run():
     chk.add_model("IndexQueueImpl (owner/thief)", vlib.model_check("IndexQueueImpl", "IndexQueueImpl_ot.cfg", timeout=600))
     r = vlib.model_check("IndexQueueImpl", "IndexQueueImpl_dev.cfg", expect_ok=False, timeout=600)
     chk.add_model("IndexQueueImpl/deviation PopRightReturnsOldLast (must violate)", r, note="violated: %s" % r["violated"])
+    # fine-grained model of the Michael deque (anchor CAS, push/pop/stabilize on both ends)
+    for cfg in ("DequeImpl.cfg", "DequeImpl_b.cfg", "DequeImpl_abp.cfg"):
+        chk.add_model("DequeImpl/%s" % cfg[:-4], vlib.model_check("DequeImplMC", cfg, timeout=900))
+    rd = vlib.model_check("DequeImplMC", "DequeImpl_dev.cfg", expect_ok=False, timeout=900)
+    chk.add_model("DequeImpl/variant pop_ignores_other_push (must violate)", rd, note="violated: %s" % rd["violated"])
+    if chk.thorough():
+        chk.add_model("DequeImpl/3 threads on both ends", vlib.model_check("DequeImplMC", "DequeImpl_3.cfg", timeout=3000))
     (binary,) = vlib.build_harness(["queue_harness"])
     nruns = 64 if chk.thorough() else 16
     nhist = 400 if chk.thorough() else 120
